@@ -79,10 +79,15 @@ class _Builder:
         for k in ("K1", "K2"):
             if d["pl" + k]:
                 shared.append(self.param(item_file, "P_" + k, pdef(*KEYS[k], d["orient"] == "pT", 1), d["pdepth"]))
+        cross = d.get("cross", "none")
+        for n, l, g in {"fwd": [("c", "query", 6)], "mirror": [("c", "header", 6), ("d", "query", 8)]}.get(cross, []):
+            shared.append(self.param(item_file, "P_%s_%s" % (n, l), pdef(n, l, d["orient"] == "pT", g), d["pdepth"]))
         # M
         m: dict = {"operationId": "opM"}
         own = [self.param(item_file, "O_" + k, pdef(*KEYS[k], d["orient"] == "oT", 2), d["odepth"])
                for k in ("K1", "K2", "K3") if d["ol" + k]]
+        for n, l, g in {"fwd": [("c", "header", 7), ("d", "query", 9)], "mirror": [("c", "query", 7)]}.get(cross, []):
+            own.append(self.param(item_file, "O_%s_%s" % (n, l), pdef(n, l, d["orient"] == "oT", g), d["odepth"]))
         if own:
             m["parameters"] = own
         if d["body"] != "none":
@@ -372,6 +377,11 @@ def _match(it: dict, e: dict, d: dict, t: str, via_iter: bool) -> list[str]:
 _SEC_NAMES = ("X-Key", "k", "Authorization")
 
 
+def _plain_class(d: dict, t: str, name: str) -> str:
+    """A parameter of the `cross` shape shares its name with one and its location with another parameter of the other level."""
+    return "name-and-location-shared-separately" if d.get("cross", "none") != "none" and t != "Z" and name in ("c", "d") else "plain"
+
+
 def _param_diff(got: list[dict], exp: set, d: dict, t: str, view: str) -> list[str]:
     gset = _pset(got)
     if gset == exp and len(got) == len(gset):
@@ -382,7 +392,7 @@ def _param_diff(got: list[dict], exp: set, d: dict, t: str, view: str) -> list[s
     for n, l, r, g in [(p["name"], p["loc"], p["req"], p["tag"]) for p in got]:
         key = (n, l)
         both = t == "M" and any(KEYS[k] == key and d["pl" + k] and d["ol" + k] for k in ("K1", "K2"))
-        cls = "same-name-same-location" if both else "security" if n in _SEC_NAMES else "plain"
+        cls = "same-name-same-location" if both else "security" if n in _SEC_NAMES else _plain_class(d, t, n)
         if key in seen:
             why.append("param-merge:%s:both-definitions-kept" % cls if both else "param:%s:duplicate" % cls)
             continue
@@ -399,7 +409,7 @@ def _param_diff(got: list[dict], exp: set, d: dict, t: str, view: str) -> list[s
                 why.append("param:%s:other-definition" % cls)
     for key in exp_by_key:
         if key not in seen:
-            why.append("param:%s:missing" % ("security" if key[0] in _SEC_NAMES else "plain"))
+            why.append("param:%s:missing" % ("security" if key[0] in _SEC_NAMES else _plain_class(d, t, key[0])))
     return why or ["param:differs"]
 
 
@@ -447,7 +457,7 @@ def case_failures(case: dict, obs: list[dict]) -> dict[int, list[str]]:
 
 ROUTE = {"iter": "iterate", "path": "path-method", "id": "operationId", "ref": "reference"}
 BASE = {"plK1": True, "plK2": False, "olK1": True, "olK2": False, "olK3": False, "orient": "pT", "pdepth": 1, "odepth": 0,
-        "pathRef": False, "body": "two", "rec": False, "sec": "hdr", "bad": "none"}
+        "pathRef": False, "body": "two", "rec": False, "cross": "none", "sec": "hdr", "bad": "none"}
 
 
 def _rel(a: tuple, b: tuple) -> str:
@@ -672,7 +682,7 @@ def selftest(ctx: Ctx) -> bool:
 
     _root.append(ctx.path("docs"))
     d = {"plK1": True, "plK2": False, "olK1": True, "olK2": False, "olK3": False, "orient": "pT", "pdepth": 1, "odepth": 0,
-         "pathRef": False, "body": "two", "rec": False, "sec": "hdr", "bad": "paramref"}
+         "pathRef": False, "body": "two", "rec": False, "cross": "none", "sec": "hdr", "bad": "paramref"}
     main = ensure_files(d, "yaml", "single")
     std = yaml.safe_load(open(main))
     post = std["paths"]["/m/{id}"]["post"]
